@@ -2291,7 +2291,21 @@ unit(name="SrcLess", props="property C04", file="src/data_structures/bwt.rs", im
                      calls={"prescan_add": dict(lean="RbV.Gen.SrcPrescan.prescan (· + ·)", args=["Vec<usize>", "usize"],
                                                 ret="Vec<usize>")},
                      params=[("bwt", "&BWTSlice"), ("alphabet", "&Alphabet")], ret="Less",
-                     theorem="RbV.Thm.GenSrcLess.less_eq_model")])
+                     theorem="RbV.Thm.GenSrcLess.less_eq_model"),
+                # `less(bwt, alphabet)`, `bwtfind(bwt, &alphabet)`: calls of the translated functions above (their abstract
+                # `maxSymbol` is passed on); `Alphabet::new(bwt)` is abstract (`alphNew`)
+                dict(name="bwtfind", lean="bwtfind", header="pub fn bwtfind(bwt: &BWTSlice, alphabet: &Alphabet) -> BWTFind",
+                     abstract_fns={"alphabet_max_symbol": ALPH_ABS["alphabet_max_symbol"]},
+                     calls={"less": dict(lean="less", extra=["maxSymbol"], args=["&BWTSlice", "&Alphabet"], ret="Less")},
+                     params=[("bwt", "&BWTSlice"), ("alphabet", "&Alphabet")], ret="BWTFind",
+                     theorem="RbV.Thm.GenSrcLess.bwtfind_eq_model"),
+                dict(name="invert_bwt", lean="invert_bwt", header="pub fn invert_bwt(bwt: &BWTSlice) -> Vec<u8>",
+                     abstract_fns={"alphabet_max_symbol": ALPH_ABS["alphabet_max_symbol"],
+                                   "Alphabet::new": dict(lean="alphNew", args=["&BWTSlice"], ret="Alphabet")},
+                     calls={"bwtfind": dict(lean="bwtfind", extra=["maxSymbol"], args=["&BWTSlice", "&Alphabet"],
+                                            ret="BWTFind")},
+                     params=[("bwt", "&BWTSlice")], ret="Vec<u8>", locals={"inverse": "Vec<u8>"},
+                     theorem="RbV.Thm.GenSrcLess.invert_bwt_eq_model")])
 
 
 # `FMIndexable::backward_search`: a provided method of the trait; the three required methods it calls are abstract
